@@ -78,7 +78,18 @@ META = {
     "(plus sampled 3-thread schedules) with model correspondence and oracle; web_tiles zoom z -> z+1: every tile splits into exactly its four "
     "children (extents + half-open partition, theorem + oracle on real output); a closed-form sufficient representability criterion: integers "
     "below 2^53 are fixed points of the binary64 rounding (proved from the definition of fl64), hence on grids with integer tile sizes/origins "
-    "and indices below 2^26 the rounded model's tile GeoBoxes ARE the exact model's (transfer theorems unconditional there).",
+    "and indices below 2^26 the rounded model's tile GeoBoxes ARE the exact model's (transfer theorems unconditional there).  Final "
+    "increment (Props/C14C04, C14Zero, C14Band, C14Band2; Model/C14Zero): a GridSpec tile as the base of a GeoboxTiles (C04/C12 tiling models): "
+    "every pixel of the tile lies in exactly one sub-tile whose GeoBox addresses it at the same world point inside the tile's footprint (tiles "
+    "of tiles partition); GeoBox.from_bbox(tile.boundingbox, shape=tile_shape, tight=True) (C08 model) rebuilds the tile GeoBox of a north-up "
+    "grid exactly; two tiles of a grid differ by a whole-tile pixel shift and therefore GeoboxTiles.grid_intersect (C12 linear path) "
+    "between the tilings of two different tiles is empty for every regular chunking (Props/C14C12, oracle on the real grid_intersect); "
+    "the binary64 rounding of the model satisfies |fl64 q - q| <= 2^-53|q| + 2^-1075 for EVERY rational (proved from its "
+    "definition) and therefore point lookup under binary64 equals the exact one outside an explicit band (2u+u^2)|q| + eta' around tile edges "
+    "(bin_transfer_band_fl64, pt2idx_band_fl64: no representability hypothesis left); signed zeros never change a value or an index and a "
+    "lower tile edge is -0.0 exactly for index 0 with a negative-zero product on a -0.0 origin; geojson()'s valid-region pipeline with "
+    "pyproj and the 0.5-degree segmentation as parameters (structure theorem).  Tied by: oracles on the real GeoboxTiles / from_bbox, the "
+    "error bound and the band on CPython doubles and the real Bin1D.bin with exact Fractions, driver ops loz / vbox / shrunk.",
     "note": "Trusted: Lean kernel + {propext, Classical.choice, Quot.sound}; shapely `disjoint` enters the polygon / multi-part "
     "theorems as a parameter with its contract as hypothesis (driver instance: separating-axis test for convex rings, validated "
     "against shapely each run); theorems are over exact rationals — IEEE rounding is covered by the bit-exact F-mode correspondence, "
@@ -88,8 +99,8 @@ META = {
     "values, float and > 2^53 indices, tile_shape, dimensions are now modelled — signed zeros are not distinguished): "
     "what pyproj decides inside `norm_crs_or_error` (the model takes the outcome class valid / None / rejected / 'utm' as input); a `str` given "
     "as shape (a Sequence of its characters) and numpy arrays compared with the (-1,-1) sentinel; `__str__`/`__repr__` (the `:g` "
-    "formatting); point lookup (`bin`) of the binary64 model is NOT covered by the closed-form representability criterion (only tile corners are: "
-    "the quotient (x-origin)/size is not an integer); GeoJSON feature geometries (to_crs to lon/lat, then shapely `simplify(0.05 degree)`: tiles "
+    "formatting); point lookup (`bin`) of the binary64 model: exact outside the proved exclusion band (inside the band the rounded lookup may "
+    "return the neighbouring tile; float-stream oracles keep a matching slack); sign bits of zero tile edges are recorded, not judged; GeoJSON feature geometries (to_crs to lon/lat, then shapely `simplify(0.05 degree)`: tiles "
     "smaller than ~0.05 degree collapse to degenerate rings — presentation, not judged); `geojson`: the valid-region box (pyproj; a parameter of the model, recomputed by the harness with the library's own pyproj "
     "calls), the lon/lat feature geometries and `native_crs`; the reprojection `to_crs(check_and_fix=True)` of the query geometry (pyproj) and "
     "shapely's `disjoint`/`bounds` themselves; HOW lazily the real generators fill the cache between two next() calls is recorded as a note "
